@@ -204,6 +204,8 @@ def map_set(I, m, key, value):
     ctx.heap["$len"] = z3.Store(lens, idt, z3.If(had, n, n + 1))
     ctx.heap["$mhas"] = z3.Store(has, idt, z3.Store(z3.Select(has, idt), kt, z3.BoolVal(True)))
     ctx.heap["$mval"] = z3.Store(val, idt, z3.Store(z3.Select(val, idt), kt, ctx.to_val(value).t))
+    for f in ("$mhas", "$mval", "$len", "$item"):
+        ctx.wrote(f, idt)
 
 
 def _is_identity_only(x):
@@ -1063,6 +1065,7 @@ def call_method(I, obj, name, args, kwargs):
                 idt = ctx.ref_id(obj)
                 has = ctx.field_array("$mhas")
                 ctx.heap["$mhas"] = z3.Store(has, idt, z3.Store(z3.Select(has, idt), ctx.to_val(args[0]).t, z3.BoolVal(False)))
+                ctx.wrote("$mhas", idt)
                 return v
             if len(args) > 1:
                 return args[1]
@@ -1079,6 +1082,8 @@ def call_method(I, obj, name, args, kwargs):
             has = ctx.field_array("$mhas")
             ctx.heap["$mhas"] = z3.Store(has, idt, z3.K(Z.Val, z3.BoolVal(False)))
             ctx.heap["$len"] = z3.Store(ctx.field_array("$len"), idt, z3.IntVal(0))
+            ctx.wrote("$mhas", idt)
+            ctx.wrote("$len", idt)
             return None
     if isinstance(obj, SV) and isinstance(obj.ty, TSeq) and obj.ty.kind == "list":
         n = seq_len(I, obj)
@@ -1087,9 +1092,12 @@ def call_method(I, obj, name, args, kwargs):
             items = ctx.field_array("$item")
             ctx.heap["$item"] = z3.Store(items, idt, z3.Store(z3.Select(items, idt), n, ctx.to_val(args[0]).t))
             ctx.heap["$len"] = z3.Store(ctx.field_array("$len"), idt, n + 1)
+            ctx.wrote("$item", idt)
+            ctx.wrote("$len", idt)
             return None
         if name == "clear":
             ctx.heap["$len"] = z3.Store(ctx.field_array("$len"), ctx.ref_id(obj), z3.IntVal(0))
+            ctx.wrote("$len", ctx.ref_id(obj))
             return None
         if name == "extend":
             conc = I.try_concrete_iter(args[0])
@@ -1104,6 +1112,8 @@ def call_method(I, obj, name, args, kwargs):
                 k = z3.Int("xk")
                 ctx.heap["$item"] = z3.Store(items, idt, z3.Lambda([k], z3.If(k < n, z3.Select(old_items, k), z3.Select(src_items, k - n))))
                 ctx.heap["$len"] = z3.Store(lens, idt, n + m)
+                ctx.wrote("$item", idt)
+                ctx.wrote("$len", idt)
                 return None
             if conc is None:
                 raise Unsupported("list.extend with a sequence of unknown length")
